@@ -580,6 +580,10 @@ class Gen:
             else:
                 base[dim] = r.choice(fallback)
         name = f"simsys{self.nsys}"
+        if r.random() < 0.3:
+            # a name that differs from a built-in system's only by case: names are case-sensitive, so this is a
+            # NEW system and "solar" / "cgs" / ... must go on meaning what they meant
+            name = ["Solar", "CGS", "Mks", "Galactic", "IMPERIAL", "Planck"][self.nsys % 6] + ("" if self.nsys < 6 else str(self.nsys))
         self.nsys += 1
         yield {"k": "mkusys", "node": ni, "h": 0, "name": name, "len": base["length"], "mass": base["mass"],
                "time": base["time"], "temp": r.choice([None, None, "K", "R"])}
